@@ -504,7 +504,7 @@ pub fn plumbing_case(rng: &mut Rng, ctx: &mut Ctx, idx: u64) {
     }
     // generated clients are routinely cloned: the clone must carry the same limits
     let mut client = if rng.bool() { client.clone() } else { client };
-    let spec = CallSpec { id: id.clone(), shape, req_msgs: req_msgs.clone(), req_meta: vec![], req_pend: vec![], req_gaps_ms: vec![], timeout: None };
+    let spec = CallSpec { id: id.clone(), shape, req_msgs: req_msgs.clone(), req_meta: vec![], req_pend: vec![], req_gaps_ms: vec![], timeout: None, pingpong: None };
     let mut ex = Exec::new();
     let view = match ex.block_on(2_000_000, do_call(&mut client, &spec, None)) {
         Out::Done(v) => v,
